@@ -326,6 +326,21 @@ func c12Peer(rng *verifsim.RNG) *RASpec {
 	for _, pf := range c12Pfx {
 		if rng.Bool(0.5) {
 			ra.Opts = append(ra.Opts, OptSpec{Kind: "prefix", Prefix: pf, OnLink: rng.Bool(0.5), Auto: rng.Bool(0.5), Valid: c12Life[rng.Intn(3)], Pref: c12Life[rng.Intn(3)]})
+			if rng.Bool(0.25) {
+				// the same base address once more: another length (an on-link
+				// /48 next to the /64) or the very same prefix repeated; every
+				// option is compared in its own right
+				sib := pf
+				if rng.Bool(0.6) {
+					sib = strings.Replace(pf, "/64", "/48", 1)
+				}
+				o := OptSpec{Kind: "prefix", Prefix: sib, OnLink: rng.Bool(0.5), Auto: rng.Bool(0.5), Valid: c12Life[rng.Intn(3)], Pref: c12Life[rng.Intn(3)]}
+				if rng.Bool(0.5) {
+					ra.Opts = append(ra.Opts, o)
+				} else {
+					ra.Opts = append(ra.Opts[:len(ra.Opts)-1], o, ra.Opts[len(ra.Opts)-1])
+				}
+			}
 		}
 	}
 	for _, rt := range c12Rt {
